@@ -128,7 +128,10 @@ def fit_case(case):
     labs = np.asarray(model.labels_)
     if labs.shape != (n,) or labs.min() < 0 or labs.max() >= K:
         v.append(violation("labels_wrong_shape_or_range", {"labels": labs, "n_clusters": K}, **where))
-    P = model.predict_proba(Xin)
+    P = np.array(model.predict_proba(Xin), copy=True)
+    P_again = np.array(model.predict_proba(Xin), copy=True)
+    if P.shape == P_again.shape and not np.array_equal(P, P_again):
+        v.append(violation("predict_proba_changes_between_two_identical_calls", {"first": P, "second": P_again}, **where))
     if P.shape != (n, K) or not np.all(np.isfinite(P)) or np.any(P < 0) or not np.allclose(P.sum(1), 1, atol=1e-9):
         v.append(violation("predict_proba_rows_not_probability_vectors", {"P": P}, **where))
     else:
@@ -138,6 +141,11 @@ def fit_case(case):
         if not np.array_equal(pred, labs):
             v.append(violation("predict_does_not_reproduce_labels", {"predict": pred, "labels_": labs}, **where))
         sc = model.score(Xin, y)
+        sc_again = model.score(Xin, y)
+        if not sc == sc_again:
+            v.append(violation("score_changes_between_two_identical_calls", {"first": sc, "second": sc_again}, **where))
+        if not np.array_equal(model.predict(Xin), labs):
+            v.append(violation("predict_does_not_reproduce_labels", {"after": "repeated queries"}, **where))
         exp, slack = C.reference_score(expect, np.clip(P, 1e-12, 1 - 1e-12))
         tol32 = 1e-5 * max(1.0, abs(exp)) if form == "float32" else 0.0
         if not abs(sc - exp) <= 1e-8 * max(1.0, abs(exp)) + slack + tol32 + (1e-7 if expect["dist"] == "mmd" else 0):
